@@ -63,7 +63,9 @@ GHOST_FIELDS = {"$changed": BOOL, "$cls": INT,
                 "$istuple": BOOL,
                 # summaries of an interior node's subtree (derived from its state; DESIGN 12.7):
                 # leftmost leaf, the successor link of the rightmost leaf, "subtree is well formed"
-                "$fst": INT, "$succ": INT, "$wf": BOOL}
+                "$fst": INT, "$succ": INT, "$wf": BOOL,
+                # order view: least / greatest key and key set of an interior node's subtree, "ordered subtree"
+                "$lo": KS, "$hi": KS, "$kset": KSET, "$owf": BOOL}
 
 CLASS_IDS = {"Bucket": 1, "Set": 2, "Tree": 3, "TreeSet": 4, "_TreeItem": 5,
              "_SetIteration": 6, "_TreeItems": 7, "Length": 8, "Checker": 9}
